@@ -65,12 +65,12 @@ func c13(env *core.Env) {
 	m := reg.NewModel(false)
 	m.StrictCodes = false
 	cfg := reg.GenConfig{
-		Repos:   pickSome(c, "repos", []string{"a", "a/b", "x", "foo", "pre", "fix", "pre2/a", "blobs/uploads", "zz", "pre/fix", "pre/fix/a", "x/y/z/w", "pre/a", "a-b", "a.b/c"}, 1, 5),
-		Tags:    pickSome(c, "tags", tagNames, 1, 2),
-		MaxBlob: 40,
-		Weights: reg.DefaultWeights(),
-		Uploads: true,
-		Stops:   true,
+		Repos:    pickSome(c, "repos", []string{"a", "a/b", "x", "foo", "pre", "fix", "pre2/a", "blobs/uploads", "zz", "pre/fix", "pre/fix/a", "x/y/z/w", "pre/a", "a-b", "a.b/c"}, 1, 5),
+		Tags:     pickSome(c, "tags", tagNames, 1, 2),
+		MaxBlob:  40,
+		Weights:  reg.DefaultWeights(),
+		Uploads:  true,
+		Stops:    true,
 		HTTPSafe: overHTTP,
 	}
 	cfg.Weights[reg.Repositories] = 10
